@@ -428,7 +428,12 @@ func (e *Exec) execLoop(h *ssa.BasicBlock, loop map[*ssa.BasicBlock]bool, pre *S
 			continue
 		}
 		stable := true
+		freshInLoop := false
 		for _, r := range refs2[k] {
+			if r.Op == "+" && len(r.Args) == 2 && r.Args[0] == nb {
+				freshInLoop = true // object allocated in this very iteration: cannot alias anything older
+				continue
+			}
 			if mentions(r, freshSyms) {
 				stable = false
 			}
@@ -442,9 +447,17 @@ func (e *Exec) execLoop(h *ssa.BasicBlock, loop map[*ssa.BasicBlock]bool, pre *S
 		// only these references change: keep everything else
 		hp := e.heap(pre, k, e.heapSorts[k])
 		nh := hp
+		if freshInLoop {
+			// objects allocated by earlier iterations live at references >= the allocation counter at
+			// loop entry; everything below is untouched by them
+			base := TS.Fresh("loopheapb_"+k, e.heapSorts[k])
+			r := BoundVar("r!lh", arrayKeySort(e.heapSorts[k]))
+			head.assume(Forall([]*Node{r}, Implies(App("<", "Bool", r, e.allocTerm(pre)), Eq(Select(base, r), Select(hp, r)))))
+			nh = base
+		}
 		seen := map[*Node]bool{}
 		for _, r := range refs2[k] {
-			if seen[r] {
+			if seen[r] || (r.Op == "+" && len(r.Args) == 2 && r.Args[0] == nb) {
 				continue
 			}
 			seen[r] = true
@@ -456,7 +469,7 @@ func (e *Exec) execLoop(h *ssa.BasicBlock, loop map[*ssa.BasicBlock]bool, pre *S
 		}
 	}
 	for _, c := range invs {
-		head.assume(e.evalClause(c, head, e.oldState(), nil))
+		head.assume(e.asHyp(func() *Node { return e.evalClause(c, head, e.oldState(), nil) }))
 	}
 	var dec0 *Node
 	if dec != nil {
@@ -1050,7 +1063,7 @@ func (e *Exec) bytesToString(s *State, sl *SliceV) *Node {
 	i := BoundVar("i!s", e.mode.idxSort())
 	body := Implies(And(e.ile(e.idx(0), i), e.ilt(i, sl.Len)),
 		Eq(Select(e.strChars(r), i), Select(arr, e.iadd(sl.Off, i))))
-	s.assume(Forall([]*Node{i}, body))
+	s.assume(e.hypForall(i, body))
 	return r
 }
 
@@ -1159,7 +1172,7 @@ func (e *Exec) slice(s *State, x *ssa.Slice) Value {
 		r := TS.Fresh("substr", "Str")
 		s.assume(Eq(e.strLen(r), e.isub(hi, lo)))
 		i := BoundVar("i!ss", e.mode.idxSort())
-		s.assume(Forall([]*Node{i}, Implies(And(e.ile(e.idx(0), i), e.ilt(i, e.isub(hi, lo))),
+		s.assume(e.hypForall(i, Implies(And(e.ile(e.idx(0), i), e.ilt(i, e.isub(hi, lo))),
 			Eq(Select(e.strChars(r), i), Select(e.strChars(str), e.iadd(lo, i))))))
 		return r
 	}
@@ -1189,12 +1202,14 @@ func (e *Exec) allocSite(s *State, ins ssa.Instruction, n *Node, et types.Type) 
 	if e.fc == nil || e.fc.AllocBound == nil {
 		return
 	}
+	if e.mode != ModeInt || e.quiet > 0 {
+		return
+	}
 	sz := e.v.sizes.Sizeof(et)
-	bound := e.evalClause(e.fc.AllocBound, s, e.entry, nil)
-	total := e.ar.BinOp(token.MUL, n, e.idx(sz), mathInt, nil)
-	_ = total
+	bound := e.evalClauseCur(e.fc.AllocBound, s, e.oldState(), nil)
 	g := App("<=", "Bool", App("*", "Int", n, IntLit(sz)), bound)
-	e.addObl(s, e.oblName("alloc"), "alloc", g, ins.Pos(), "allocation bounded by "+e.fc.AllocBound.Text)
+	e.obls = append(e.obls, &Obligation{Name: e.oblName("alloc"), Kind: "alloc", Pos: ins.Pos(), Goal: g, Hyp: s.pc, Func: e.funcKey,
+		Text: fmt.Sprintf("allocation of %d-byte elements bounded by %s", sz, e.fc.AllocBound.Text), Props: unionProps(orProps(e.fc.AllocBound.Props, e.props)), Mode: e.mode, exec: e})
 }
 
 func (e *Exec) notePhiEdge(from, to *ssa.BasicBlock, s *State) {
